@@ -110,6 +110,24 @@ func c17CheckAlphabet(r *obs.Run, name string, a alphabet.Alphabet, def string, 
 			bad(int(a.Letter(i)), fmt.Sprintf("letter-order: Letter(%d)=%d want %d", i, a.Letter(i), want))
 		}
 	}
+	// Letters(): the definition as given (case-sensitive) or both cases of it, lower case first; its letters are the valid ones
+	{
+		ls := a.Letters()
+		want := string(def)
+		if !cased {
+			want = strings.ToLower(string(def)) + strings.ToUpper(string(def))
+		}
+		if ls != want {
+			r.Violate("alphabet-letters", fmt.Sprintf("%s Letters()=%q want %q", name, ls, want), c17w{name, def, ls, "Letters"})
+		}
+		for i := 0; i < a.Len() && i < len(ls); i++ {
+			if ls[i] != byte(a.Letter(i)) {
+				r.Violate("alphabet-letters", fmt.Sprintf("%s Letters()[%d]=%q but Letter(%d)=%q", name, i, ls[i], i, byte(a.Letter(i))), c17w{name, def, ls, "Letters"})
+				break
+			}
+		}
+		r.Count("letters_strings_checked", 1)
+	}
 	// AllValid on random slices
 	for k := 0; k < 6; k++ {
 		n := r.Rng.Intn(12)
@@ -189,6 +207,9 @@ func c17CheckComplement(r *obs.Run, name string, c alphabet.Complementor, paired
 			}
 		} else if l < 128 && table[l]&0x80 == 0 {
 			bad(l, fmt.Sprintf("table: method says unpaired but table holds %d without the high bit", table[l]))
+		} else if comp != L || table[l] != L|0x80 {
+			// "otherwise unchanged and false": the method hands the letter back, the table holds it with the high bit set
+			bad(l, fmt.Sprintf("table: unpaired letter %d: method returns %d, table holds %d (want %d and %d)", l, comp, table[l], L, L|0x80))
 		}
 		if paired != nil && ok != paired[l] {
 			bad(l, fmt.Sprintf("paired: Complement ok=%v but definition pairs it: %v", ok, paired[l]))
